@@ -2,6 +2,7 @@
 
 from typing import Any, Dict, List, Optional, Union, TYPE_CHECKING
 import math
+import re
 
 if TYPE_CHECKING:
     from .context import Context
@@ -117,6 +118,18 @@ def to_boolean(value: JSValue) -> bool:
     return True
 
 
+# White space and line terminators that ToNumber strips from a string
+_JS_WHITESPACE = (
+    "\t\n\v\f\r \u00a0\u1680\u2000\u2001\u2002\u2003\u2004\u2005\u2006\u2007"
+    "\u2008\u2009\u200a\u2028\u2029\u202f\u205f\u3000\ufeff"
+)
+# StrDecimalLiteral (ASCII digits only, no digit separators, "Infinity" spelled out)
+_DECIMAL_LITERAL = re.compile(
+    r"[+-]?(?:Infinity|(?:[0-9]+\.?[0-9]*|\.[0-9]+)(?:[eE][+-]?[0-9]+)?)\Z"
+)
+_RADIX_LITERAL = re.compile(r"0(?:[xX][0-9a-fA-F]+|[oO][0-7]+|[bB][01]+)\Z")
+
+
 def to_number(value: JSValue) -> Union[int, float]:
     """Convert a JavaScript value to number."""
     if value is UNDEFINED:
@@ -128,21 +141,22 @@ def to_number(value: JSValue) -> Union[int, float]:
     if isinstance(value, (int, float)):
         return value
     if isinstance(value, str):
-        s = value.strip()
+        # StringNumericLiteral: Python's int()/float() accept more ("1_0",
+        # "nan", "inf", non-ASCII digits) and str.strip() trims other characters
+        s = value.strip(_JS_WHITESPACE)
         if s == "":
             return 0
-        try:
-            if "." in s or "e" in s.lower():
-                return float(s)
-            if s.startswith("0x") or s.startswith("0X"):
-                return int(s, 16)
-            if s.startswith("0o") or s.startswith("0O"):
-                return int(s, 8)
-            if s.startswith("0b") or s.startswith("0B"):
-                return int(s, 2)
-            return int(s)
-        except ValueError:
+        if _RADIX_LITERAL.match(s):
+            return int(s[2:], {"x": 16, "o": 8, "b": 2}[s[1].lower()])
+        if not _DECIMAL_LITERAL.match(s):
             return float("nan")
+        if "Infinity" in s:
+            return float("-inf") if s.startswith("-") else float("inf")
+        if "." in s or "e" in s or "E" in s:
+            return float(s)
+        n = int(s)
+        # Integers beyond the double range are infinite, as in float()
+        return n if abs(n) < 2**1023 else float(s)
     # TODO: Handle objects with valueOf
     return float("nan")
 
@@ -205,6 +219,37 @@ def js_pow(base: Union[int, float], exponent: Union[int, float]) -> Union[int, f
     return result
 
 
+def _float_to_string(value: float) -> str:
+    """Number::toString(10) for a finite, non-zero double.
+
+    repr() gives the shortest digits that round-trip, which is what
+    ECMAScript asks for, but Python switches to exponent notation at other
+    magnitudes (1e16 and 1e-5 instead of 1e21 and 1e-7) and pads the
+    exponent ("1e-07").
+    """
+    sign = "-" if value < 0 else ""
+    mantissa, _, exponent = repr(abs(value)).partition("e")
+    int_part, _, frac_part = mantissa.partition(".")
+    digits = int_part + frac_part
+    # value == 0.<digits> * 10**n
+    n = len(int_part) + (int(exponent) if exponent else 0)
+    stripped = digits.lstrip("0")
+    n -= len(digits) - len(stripped)
+    digits = stripped.rstrip("0")
+    k = len(digits)
+    if k <= n <= 21:
+        return sign + digits + "0" * (n - k)
+    if 0 < n <= 21:
+        return sign + digits[:n] + "." + digits[n:]
+    if -6 < n <= 0:
+        return sign + "0." + "0" * (-n) + digits
+    e = n - 1
+    exp_text = ("+" if e >= 0 else "-") + str(abs(e))
+    if k == 1:
+        return sign + digits + "e" + exp_text
+    return sign + digits[0] + "." + digits[1:] + "e" + exp_text
+
+
 def to_string(value: JSValue) -> str:
     """Convert a JavaScript value to string."""
     if value is UNDEFINED:
@@ -214,7 +259,13 @@ def to_string(value: JSValue) -> str:
     if isinstance(value, bool):
         return "true" if value else "false"
     if isinstance(value, int):
-        return str(value)
+        if abs(value) < 10**21:
+            return str(value)
+        # Integers are doubles in JavaScript: exponent notation from 1e21 on
+        try:
+            value = float(value)
+        except OverflowError:
+            return "Infinity" if value > 0 else "-Infinity"
     if isinstance(value, float):
         if is_nan(value):
             return "NaN"
@@ -222,14 +273,9 @@ def to_string(value: JSValue) -> str:
             return "Infinity"
         if value == float("-inf"):
             return "-Infinity"
-        # Handle -0
-        if value == 0 and math.copysign(1, value) < 0:
-            return "0"
-        # Format float nicely
-        s = repr(value)
-        if s.endswith(".0"):
-            return s[:-2]
-        return s
+        if value == 0:
+            return "0"  # also for -0
+        return _float_to_string(value)
     if isinstance(value, str):
         return value
     # TODO: Handle objects with toString
